@@ -38,4 +38,7 @@ let () =
         (Model.c20_main_base udec (text ls) (vbool ht) (cli c) (optdict ft) (optdict fj) (Model.c20_mkin (vb raw) (text txt)))
     | _ -> raise (Bad "arity"));
   register "c20_format_option" (function [s] -> of_result of_pyval (Model.c20_format_option (vb s)) | _ -> raise (Bad "arity"));
-  register "c20_convert" (function [f; g; d] -> of_result (fun b -> VB b) (Model.c20_convert udec (pyval f) (pyval g) (vb d)) | _ -> raise (Bad "arity"))
+  register "c20_convert" (function [f; g; d] -> of_result (fun b -> VB b) (Model.c20_convert udec (pyval f) (pyval g) (vb d)) | _ -> raise (Bad "arity"));
+  register "c20_io_formats" (function [ht; sub; c; ft; fj; fi; fo] ->
+      of_result (fun b -> VBool b) (Model.c20_io_formats (vbool ht) (vb sub) (cli c) (optdict ft) (optdict fj) (pyval fi) (pyval fo))
+    | _ -> raise (Bad "arity"))
